@@ -153,13 +153,17 @@ int sqfs_xattr_reader_load(sqfs_xattr_reader_t *xr, const sqfs_super_t *super,
 	/* create the meta data readers */
 	xr->idrd = sqfs_meta_reader_create(file, cmp, super->id_table_start,
 					   super->bytes_used);
-	if (xr->idrd == NULL)
+	if (xr->idrd == NULL) {
+		err = SQFS_ERROR_ALLOC;
 		goto fail_blocks;
+	}
 
 	xr->kvrd = sqfs_meta_reader_create(file, cmp, super->id_table_start,
 					   super->bytes_used);
-	if (xr->kvrd == NULL)
+	if (xr->kvrd == NULL) {
+		err = SQFS_ERROR_ALLOC;
 		goto fail_idrd;
+	}
 
 	xr->xattr_end = super->bytes_used;
 	return 0;
